@@ -27,8 +27,8 @@ TECHNIQUE = (
 )
 LEVEL_TEXT = (
     "For every 2x2 matrix triple with entries in {0..3}/{0,1}/{0,1} (degree+1 points per entry) the expanded "
-    "backward matching operator is the two-sided series inverse of the forward one through the matching order, "
-    "exactly (integer arithmetic); this decides the identity for non-commuting matrices of any size. The exact "
+    "backward matching operator is the two-sided series inverse of the forward one (itself pinned to 1 + sum a^k A_k) "
+    "through the matching order, exactly (integer arithmetic); this decides the identity for non-commuting matrices of any size. The exact "
     "backward operator and the decoupling tables are checked on explicit finite lists."
 )
 LEVEL_NOTE = (
@@ -155,6 +155,50 @@ def _extract_int(qk, mats_of_b, Bsz, d, n, method, res, site, stats):
     return co
 
 
+def _forward_pin(res, F, Aof, Bsz, n, describe):
+    """The forward matching operator IS 1 + sum_{k<=n} a_s^k A_k: pin the exactly extracted coefficients
+    (a change in the code shared by the forward and backward branches keeps F*B = 1 and would otherwise pass)."""
+    d = F.shape[-1]
+    for k in range(F.shape[0]):
+        if k == 0:
+            want = np.broadcast_to(np.eye(d, dtype=np.int64), F[0].shape)
+        elif k <= n:
+            want = np.stack([Aof(b)[k - 1] for b in range(Bsz)])
+        else:
+            want = np.zeros_like(F[0])
+        bad = np.any(F[k] != want, axis=(-1, -2))
+        if np.any(bad):
+            b = int(np.argwhere(bad)[0][0])
+            res.fail(
+                f"build_ome/FORWARD/coefficient=a^{k}",
+                f"matching order {n}, {describe(b)}: coefficient of a_s^{k} of the forward operator is "
+                f"{np.array2string(F[k][b]).replace(chr(10), '')} instead of "
+                f"{np.array2string(want[b]).replace(chr(10), '')} ({int(bad.sum())} of {Bsz} lattice points)",
+            )
+            return
+
+
+def _exact_on_lattice(res, qk, mats, Bsz, n, describe, st, a=0.125):
+    """BACKWARD_EXACT at a_s = 1/8 on every lattice point: two-sided inverse of FORWARD (1e-12 x cond)."""
+    MM = qk.MatchingMethods
+    worst = 0.0
+    for b in range(Bsz):
+        A = mats(b)
+        F = qk.build_ome(A, (n, 0), a, MM.FORWARD)
+        X = qk.build_ome(A, (n, 0), a, MM.BACKWARD_EXACT)
+        st["calls"] += 2
+        eye = np.eye(F.shape[0])
+        cond = float(np.linalg.cond(F))
+        dev = max(np.abs(X @ F - eye).max(), np.abs(F @ X - eye).max()) / cond
+        worst = max(worst, float(dev))
+        if not dev <= TOL_EXACT and not any(f.signature == "build_ome/BACKWARD_EXACT/lattice" for f in res.fails):
+            res.fail(
+                "build_ome/BACKWARD_EXACT/lattice",
+                f"order {n} a_s={a} {describe(b)}: |X F - 1| or |F X - 1| = {dev * cond:.3e} (cond {cond:.2e}); X={X.tolist()} F={F.tolist()}",
+            )
+    st["max_rel_exact_lattice"] = max(st.get("max_rel_exact_lattice", 0.0), worst)
+
+
 def _stats():
     return {"calls": 0, "nontrivial": False}
 
@@ -186,8 +230,11 @@ def _ome_lattice(case):
 
     F = _extract_int(qk, mats, 256, 2, n, MM.FORWARD, res, "build_ome/FORWARD", st)
     B = _extract_int(qk, mats, 256, 2, n, MM.BACKWARD_EXPANDED, res, site, st)
+    if F is not None:
+        _forward_pin(res, F, lambda b: (A1s[b], A2, A3), 256, n, describe)
     if F is not None and B is not None:
         _series_inverse_check(res, site, F, B, n, describe, st)
+    _exact_on_lattice(res, qk, mats, 256, n, describe, st)
     return _finish(res, st, f"ome.lattice.n={n}")
 
 
@@ -228,8 +275,11 @@ def _ome_dim3(case):
 
     F = _extract_int(qk, mats, len(trip), 3, n, MM.FORWARD, res, "build_ome/FORWARD", st)
     B = _extract_int(qk, mats, len(trip), 3, n, MM.BACKWARD_EXPANDED, res, site, st)
+    if F is not None:
+        _forward_pin(res, F, lambda b: trip[b], len(trip), n, describe)
     if F is not None and B is not None:
         _series_inverse_check(res, site, F, B, n, describe, st)
+    _exact_on_lattice(res, qk, mats, len(trip), n, describe, st)
     return _finish(res, st, f"ome.dim3.n={n}")
 
 
@@ -312,6 +362,16 @@ def _ome_complex(case):
             st["calls"] += 2 * len(NODES)
             Fc = np.tensordot(Vinv, vals[MM.FORWARD], axes=(1, 0))[:, None]
             Bc = np.tensordot(Vinv, vals[MM.BACKWARD_EXPANDED], axes=(1, 0))[:, None]
+            # forward operator pinned: at a_s = 1 it is exactly 1 + A_1 + .. + A_n
+            want = np.eye(d, dtype=np.complex128) + sum(A[k] for k in range(n))
+            got = vals[MM.FORWARD][NODES.index(1)]
+            devf = float(np.abs(got - want).max() / (1.0 + sum(np.abs(A[k]).max() for k in range(n))))
+            st["max_rel_forward_pin"] = max(st.get("max_rel_forward_pin", 0.0), devf)
+            if not devf <= TOL_EXACT and not any(f.signature == "build_ome/FORWARD/value-at-a=1" for f in res.fails):
+                res.fail(
+                    "build_ome/FORWARD/value-at-a=1",
+                    f"{label} order {n}: forward operator at a_s=1 is {got.tolist()} instead of 1+sum A_k = {want.tolist()}",
+                )
             _series_inverse_check(res, "build_ome/BACKWARD_EXPANDED", Fc, Bc, n, lambda b: label, st)
     return _finish(res, st, f"ome.complex.{case['family']}")
 
@@ -467,7 +527,45 @@ def _tables(case):
     return _finish(res, st, f"tables.{case['what']}")
 
 
+def _ome_dispatch(case):
+    """The member that reaches build_ome in a real run comes from
+    operator_matrix_element.matching_method(InversionMethod(s)); build_ome dispatches on object identity, so the
+    chain must hand over the very members build_ome compares with.  One non-commuting integer triple, a_s = 1."""
+    qk = _qk()
+    from eko.evolution_operator import operator_matrix_element as om
+    from eko.io.types import InversionMethod
+
+    res, st = Result(), _stats()
+    A = np.ascontiguousarray(
+        np.array([[[1, 2], [0, 1]], [[0, 1], [3, 1]], [[2, 0], [1, 1]]], dtype=np.complex128)
+    )
+    a = 1.0
+    eye = np.eye(2)
+    F = eye + a * A[0] + a**2 * A[1] + a**3 * A[2]
+    # expanded inverse of F through a^3, written from the geometric series of X = a A1 + a^2 A2 + a^3 A3
+    Bx = eye - a * A[0] + a**2 * (A[0] @ A[0] - A[1]) + a**3 * (-A[2] + A[0] @ A[1] + A[1] @ A[0] - A[0] @ A[0] @ A[0])
+    want = {None: ("FORWARD", F), "exact": ("BACKWARD_EXACT", np.linalg.inv(F)), "expanded": ("BACKWARD_EXPANDED", Bx)}
+    for sname, (mname, W) in want.items():
+        try:
+            m = om.matching_method(InversionMethod(sname) if sname is not None else None)
+            got = qk.build_ome(A, (3, 0), a, m)
+        except Exception as e:  # noqa
+            res.fail(f"matching_method->build_ome/{mname}/raises", f"inversion method {sname!r}: {type(e).__name__}: {e}")
+            continue
+        st["calls"] += 1
+        st["nontrivial"] = True
+        dev = float(np.abs(got - W).max() / np.abs(W).max())
+        st["max_rel_dispatch"] = max(st.get("max_rel_dispatch", 0.0), dev)
+        if not dev <= TOL_EXACT:
+            res.fail(
+                f"matching_method->build_ome/{mname}",
+                f"inversion method {sname!r} -> {m!r}: build_ome returned {got.tolist()} instead of the {mname} operator {W.tolist()}",
+            )
+    return _finish(res, st, "ome.dispatch")
+
+
 PARTS = {
+    "ome.dispatch": _ome_dispatch,
     "ome.lattice": _ome_lattice,
     "ome.dim3": _ome_dim3,
     "ome.complex": _ome_complex,
@@ -502,6 +600,7 @@ def cases_for(tier):
         for N in Ns:
             cases.append({"part": "ome.complex", "family": fam, "N": [N], "Lmh": Ls, "nfs": nfs, "as": a_s})
     cases.append({"part": "ome.complex", "family": "synthetic", "as": a_s + [1.0]})
+    cases.append({"part": "ome.dispatch"})
     for c11 in range(4):
         cases.append({"part": "invert.symbolic", "c11": c11})
     for nf in (3, 4, 5):
@@ -520,7 +619,9 @@ def run(ctx):
         "build_ome FORWARD and BACKWARD_EXPANDED on the complete product A1 in {0,1,2,3}^(2x2) (256) x A2 in {0,1}^(2x2) "
         "(16) x A3 in {0,1}^(2x2) (16) for matching orders 0-3 (only the matrices an order uses are varied), each at "
         "a_s in {0,+-1,+-2,3} (+ validation node -3): exact extraction of the a_s-coefficients and exact test of "
-        "sum F_i B_(k-i) = sum B_i F_(k-i) = delta_k0 for k <= order; explicit 3x3 integer triples; BACKWARD_EXACT as "
+        "sum F_i B_(k-i) = sum B_i F_(k-i) = delta_k0 for k <= order, the FORWARD coefficients themselves pinned to "
+        "(1, A_1..A_n, 0..) and BACKWARD_EXACT at a_s = 1/8 as two-sided inverse on every lattice point; explicit 3x3 integer "
+        "triples (same oracles); dispatch of the three inversion methods through matching_method(InversionMethod); BACKWARD_EXACT as "
         "two-sided inverse (1e-12 x cond) and float series inverse on the real ekore matching matrices "
         "(unpolarised singlet/non-singlet to a_s^3, polarised to a_s^2, time-like to a_s^1) at listed complex N, L, nf "
         "and on a synthetic complex family; invert_matching_coeffs on c11 in {0,1,2,3} x {0,1}^7 (exact) and on the "
@@ -531,7 +632,11 @@ def run(ctx):
         "build_ome is polynomial in a_s (degree <= 5, validated on a 7th node) and in the matrix entries with degrees "
         "<= 3 (A1), 1 (A2), 1 (A3) as read off the source; with degree+1 lattice points per entry the identity holds "
         "for all 2x2 matrices and, by Amitsur-Levitzki (no identity of degree < 4 on M2), in the free algebra",
-        "forward operator = whatever build_ome returns for FORWARD; the property constrains the pair (F, B)",
+        "forward operator pinned: its exactly extracted coefficients must be 1, A_1..A_n, 0 beyond the matching order "
+        "(floats: value at a_s = 1); terms of the expanded inverse beyond the matching order are not constrained (the "
+        "statement allows them)",
+        "build_ome dispatches on object identity of the MatchingMethods member; the members are obtained once through the "
+        "real chain matching_method(InversionMethod(s)); an int or a foreign enum is outside build_ome's documented argument type",
         "coupling decoupling is compositional (a' = g(a)), mass decoupling multiplicative at the same a (as in "
         "msbar_masses.evolve); c[1,0] = 0 as documented in invert_matching_coeffs",
         "literature values of the tables are not part of this property (C16/C18)",
